@@ -825,3 +825,21 @@ package expr
 //@   loop 9 invariant reported: forall k int :: 0 <= k && k <= rangeidx(9) && k != i && ranged(9)[k].StatusCode == r#4.StatusCode ==> len(verr.Errors) > n0
 //@   let idx = prev(8, rangeidx(8) + 1)
 //@   loop 8 step* same.status.rejected: forall k int :: 0 <= k && k < len(ranged(8)) && k != idx && prev(8, ranged(8)[k].StatusCode) == prev(8, ranged(8)[idx].StatusCode) ==> len(verr.Errors) > n0
+
+// ---- error attributes travel in goa-attribute headers only when the design maps them nowhere (C05) ----
+// "Declared errors reach the client as the same error": an ErrorResult attribute the design maps to a header of
+// its own must stay under that header; the implicit "goa-attribute-<name>" mapping is only for attributes the
+// response's header table does not know (FindKey said so for that very name, on that very table).
+//@ ghost spec var fkLastKey String
+//@ ghost spec var fkLastFound Bool
+//@ ghost spec var fkLastRecv Int
+//@ func (*HTTPResponseExpr).mapUnmappedAttrs
+//@   params r svcAtt
+//@   property C05
+//@   opt loopframes none
+//@   opt inline none
+//@   callspec (*MappedAttributeExpr).FindKey params ma k
+//@       ensures fkLastKey == k && fkLastFound == result1 && fkLastRecv == ma
+//@       modifies fkLastKey, fkLastFound, fkLastRecv
+//@   callspec (*MappedAttributeExpr).Map params ma elemName attName
+//@       requires* only.attributes.without.a.header.of.their.own: fkLastKey == attName && !fkLastFound && fkLastRecv == ma && elemName == "goa-attribute-" + attName
